@@ -1,6 +1,7 @@
 //! Lower allocator implementations
 
 use core::mem::align_of;
+use core::ptr::NonNull;
 use core::sync::atomic::AtomicU16;
 use core::{fmt, slice};
 
@@ -77,6 +78,8 @@ pub struct Lower<'a> {
     len: usize,
     bitfields: &'a [Align<Bitfield>],
     children: &'a [Align<[Atom<HugeEntry>; TREE_HUGE]>],
+    /// Start of the metadata buffer, which contains the bitfields followed by the tables
+    primary: Option<NonNull<u8>>,
 }
 
 unsafe impl Send for Lower<'_> {}
@@ -120,20 +123,23 @@ impl<'a> Lower<'a> {
             error!("primary metadata");
             return Err(Error::Initialization);
         }
-        let (bitfields, children) = primary.split_at_mut(m.bitfield_size);
+        // Both arrays are derived from the pointer to the whole buffer,
+        // which is kept to hand the buffer back in `metadata`
+        let primary = primary.as_mut_ptr();
 
         // Start of the l1 table array
-        let bitfields =
-            unsafe { slice::from_raw_parts_mut(bitfields.as_mut_ptr().cast(), m.bitfield_len) };
+        let bitfields = unsafe { slice::from_raw_parts_mut(primary.cast(), m.bitfield_len) };
 
         // Start of the l2 table array
-        let children =
-            unsafe { slice::from_raw_parts_mut(children.as_mut_ptr().cast(), m.table_len) };
+        let children = unsafe {
+            slice::from_raw_parts_mut(primary.add(m.bitfield_size).cast(), m.table_len)
+        };
 
         let alloc = Self {
             len: frames,
             bitfields,
             children,
+            primary: NonNull::new(primary),
         };
 
         match init {
@@ -158,7 +164,8 @@ impl<'a> Lower<'a> {
 
     pub unsafe fn metadata(&mut self) -> &'a mut [u8] {
         let len = Self::metadata_size(self.frames());
-        unsafe { slice::from_raw_parts_mut(self.bitfields.as_ptr().cast_mut().cast(), len) }
+        let primary = self.primary.unwrap_or(NonNull::dangling());
+        unsafe { slice::from_raw_parts_mut(primary.as_ptr(), len) }
     }
 
     /// Recovers the huge entries from the bitfields and fixes inconsistencies.
